@@ -5,3 +5,20 @@ mod persister_task;
 pub use log_reader::SegmentLogReader;
 pub use log_writer::SegmentLogWriter;
 pub use persister_task::PersisterTask;
+
+/// Writes all the provided slices to the file and waits until the write is completed.
+/// A single `write_vectored` call may write only a part of the data (tokio's `File` buffers at most 2 MiB per call).
+pub(crate) async fn write_all_vectored(
+    file: &mut tokio::fs::File,
+    mut slices: &mut [std::io::IoSlice<'_>],
+) -> std::io::Result<()> {
+    use tokio::io::AsyncWriteExt;
+    while !slices.is_empty() {
+        let written = file.write_vectored(slices).await?;
+        if written == 0 {
+            return Err(std::io::ErrorKind::WriteZero.into());
+        }
+        std::io::IoSlice::advance_slices(&mut slices, written);
+    }
+    file.flush().await
+}
